@@ -1,10 +1,15 @@
 // h_c32 drives the real blockchain.Push (task loop, re-registration, restart) with generated fault
 // histories: a scripted HTTP subscriber (httptest) that acknowledges, refuses or answers garbage, new
 // blocks arriving in bursts, deactivation after three failures, re-registration and node restarts over
-// in-memory stores.  Every externally visible event (post a..b acknowledged or not, the persisted
-// last-pushed sequence, deactivation, task start) is logged in the order it happened and validated
-// against the Lean specification acceptor (trace validation, timing independent).  The C32 predicate
-// is also evaluated directly on the log.
+// in-memory stores, for the subscription types PushBlock, PushBlockHeader, PushTxReceipt (contract filter:
+// ranges without matching data) and PushTxResult.  Store faults between acknowledgement and record are
+// injected through the supplied stores: a failing Set of the last-pushed key, and a crash (the task is
+// frozen inside that Set for good and a new Push is built over the same stores).
+// Every externally visible event (post a..b acknowledged or not, the persisted last-pushed sequence,
+// deactivation, task start; for filter subscriptions also ranges scanned without data and stalls, both
+// derived from the reads of the sequence store) is logged in the order it happened and validated against
+// the Lean specification acceptor (trace validation, timing independent).  The C32 predicate is also
+// evaluated directly on the log and on the payloads (model independent).
 package main
 
 import (
@@ -30,10 +35,18 @@ import (
 
 var out = gen.NewOut()
 
+const (
+	tyBlock   = 0
+	tyHeader  = 1
+	tyReceipt = 2
+	tyResult  = 3
+	maxSize   = 1 * 1024 * 1024 // pushMaxSize
+)
+
 // ------------------------------------------------------------------ event log
 
 type event struct {
-	kind string // post | persisted | deactivated | started
+	kind string // post | persisted | deactivated | started | skip | stalled
 	a, b int64
 	ok   bool
 }
@@ -48,13 +61,24 @@ func (e event) line() string {
 		return fmt.Sprintf("post %d %d %d", e.a, e.b, k)
 	case "persisted":
 		return fmt.Sprintf("persisted %d", e.a)
+	case "skip":
+		return fmt.Sprintf("skip %d %d", e.a, e.b)
 	}
 	return e.kind
 }
 
+// one pass of the task loop over the sequence store (filter subscriptions)
+type call struct {
+	start   int64
+	posted  bool
+	acked   bool
+	postIdx int
+	nums    []int64
+}
+
 type scenario struct {
 	mu     sync.Mutex
-	gate   sync.Mutex // held by the driver while it (re)starts tasks; posts wait for it
+	gate   sync.Mutex // held by the driver while it (re)starts tasks; posts and block reads wait for it
 	events []event
 	name   string
 	rec    []byte
@@ -65,15 +89,68 @@ type scenario struct {
 	okNum  int // probability numerator /10 that a post is acknowledged
 	mode   int // how a refusal looks
 	notes  []string
+	typ    int
+	filter bool // contract filter: a range may hold no matching data
+	lossy  bool // store failures / crashes between acknowledgement and record are injected
+	seed   uint64
+	dens   int // matching data in seq iff h(seed,seq)%16 < dens
+	// explicit block contents of scripted scenarios: payload bytes of the matching tx (0: no matching tx)
+	script map[int64]int
+
 	closeBlocked bool
-	blocks       bool // PushBlock subscription (else PushBlockHeader)
 	innerGap     bool
+	preds        [][2]string
+	cur          *call
+	marker       bool
+	stalls       int
+	redelivered  int
+	lostRecords  int
+	crashes      int
 }
 
 func (s *scenario) log(e event) {
 	s.mu.Lock()
-	s.events = append(s.events, e)
+	s.logLocked(e)
 	s.mu.Unlock()
+}
+
+func (s *scenario) logLocked(e event) {
+	s.events = append(s.events, e)
+	if e.kind == "started" {
+		s.cur = nil
+		s.marker = true // the first block read of the new task starts its first pass
+	}
+}
+
+func (s *scenario) pred(sig, detail string) {
+	for _, p := range s.preds {
+		if p[0] == sig {
+			return
+		}
+	}
+	s.preds = append(s.preds, [2]string{sig, detail})
+}
+
+func mix(seed uint64, seq int64) uint64 {
+	x := seed ^ (uint64(seq) * 0x9E3779B97F4A7C15)
+	x ^= x >> 31
+	x *= 0xBF58476D1CE4E5B9
+	x ^= x >> 29
+	return x
+}
+
+// payload length of the matching transaction in the block at seq (0: the block holds no matching tx)
+func (s *scenario) dataLen(seq int64) int {
+	if s.script != nil {
+		return s.script[seq]
+	}
+	if int(mix(s.seed, seq)%16) >= s.dens {
+		return 0
+	}
+	if s.seqs.bigMod > 0 && seq%s.seqs.bigMod < 4 {
+		return 300 * 1024 // a run of large receipts: the 1 MB payload cap cuts the batch
+	}
+	return 10 + int(mix(s.seed, seq)>>8)%50
 }
 
 // ------------------------------------------------------------------ stores
@@ -82,17 +159,50 @@ type memStore struct {
 	mu sync.Mutex
 	m  map[string][]byte
 	sc *scenario
+	// faults on writes of the last-pushed key (armed after the first registration)
+	failNum    int  // probability numerator /10 that such a write fails
+	failOnce   bool // the next such write fails
+	crashArmed bool // the next such write never returns (node crash between ack and record)
+	crashed    chan struct{}
 }
+
+var errStore = fmt.Errorf("store: write failed")
 
 func (m *memStore) SetSync(key, value []byte) error { return m.Set(key, value) }
 func (m *memStore) Set(key, value []byte) error {
+	if bytes.Equal(key, m.sc.last) {
+		m.mu.Lock()
+		if m.crashArmed {
+			m.crashArmed = false
+			m.mu.Unlock()
+			m.sc.mu.Lock()
+			m.sc.crashes++
+			m.sc.mu.Unlock()
+			m.crashed <- struct{}{}
+			select {} // this "process" is dead
+		}
+		fail := m.failOnce
+		m.failOnce = false
+		if !fail && m.failNum > 0 {
+			m.sc.mu.Lock()
+			fail = m.sc.r.Intn(10) < m.failNum
+			m.sc.mu.Unlock()
+		}
+		m.mu.Unlock()
+		if fail {
+			m.sc.mu.Lock()
+			m.sc.lostRecords++
+			m.sc.mu.Unlock()
+			return errStore
+		}
+	}
 	m.mu.Lock()
 	m.m[string(key)] = append([]byte{}, value...)
 	m.mu.Unlock()
 	if bytes.Equal(key, m.sc.last) {
 		var v types.Int64
 		if err := types.Decode(value, &v); err == nil {
-			m.sc.log(event{kind: "persisted", a: v.Data})
+			m.sc.persisted(v.Data)
 		}
 	}
 	if bytes.Equal(key, m.sc.rec) {
@@ -103,6 +213,50 @@ func (m *memStore) Set(key, value []byte) error {
 	}
 	return nil
 }
+
+// the record v was written
+func (s *scenario) persisted(v int64) {
+	s.mu.Lock()
+	defer s.mu.Unlock()
+	if s.filter && s.cur != nil && s.cur.posted && s.cur.acked {
+		// the end of the range a filter post covers is visible only here: it must lie between the last
+		// matching sequence of the payload and the last sequence read, and hold every matching sequence
+		c := s.cur
+		e := &s.events[c.postIdx]
+		if v >= e.b && c.postIdx == len(s.events)-1 {
+			s.checkCovered(c, v)
+			e.b = v
+		}
+	}
+	s.logLocked(event{kind: "persisted", a: v})
+}
+
+// every sequence with matching data in start..upto is in the acknowledged payload
+func (s *scenario) checkCovered(c *call, upto int64) {
+	have := map[int64]bool{}
+	for _, n := range c.nums {
+		have[n] = true
+	}
+	for d := c.start; d <= upto; d++ {
+		if s.dataLen(d) > 0 && !have[d] {
+			sig := "C32|getPushData|matching-block-dropped"
+			total := perBlkSize(s, d)
+			for _, n := range c.nums {
+				if n < d {
+					total += perBlkSize(s, n)
+				}
+			}
+			if s.typ == tyReceipt && total == maxSize {
+				// the batch with this block is exactly pushMaxSize: neither "< maxSize" nor "> maxSize"
+				sig = "C32|getTxReceipts|block-dropped-when-batch-size-equals-limit"
+			}
+			s.pred(sig,
+				fmt.Sprintf("%s: sequence %d holds matching data (%d payload bytes) but the acknowledged payload for %d..%d lists %v; log=%s",
+					s.name, d, s.dataLen(d), c.start, upto, c.nums, s.dumpLocked()))
+		}
+	}
+}
+
 func (m *memStore) GetKey(key []byte) ([]byte, error) {
 	m.mu.Lock()
 	defer m.mu.Unlock()
@@ -139,15 +293,23 @@ func (m *memStore) List(prefix []byte) ([][]byte, error) {
 type seqStore struct {
 	mu     sync.Mutex
 	latest int64
-	bigMod int64 // every sequence with seq%bigMod < 5 is reported as a 400 KB block (0: none)
+	bigMod int64 // a run of large blocks / receipts every bigMod sequences (0: none)
+	sc     *scenario
+	cache  map[int64]*types.BlockDetail
 }
 
 func hashOf(seq int64) []byte { return []byte(fmt.Sprintf("hash-%020d-padpadpadpad", seq))[:32] }
 
 func (s *seqStore) LoadBlockLastSequence() (int64, error) {
 	s.mu.Lock()
-	defer s.mu.Unlock()
-	return s.latest, nil
+	l := s.latest
+	s.mu.Unlock()
+	if s.sc.filter {
+		s.sc.mu.Lock()
+		s.sc.marker = true // the next block read starts a new pass of the task loop
+		s.sc.mu.Unlock()
+	}
+	return l, nil
 }
 func (s *seqStore) GetBlockSequence(seq int64) (*types.BlockSequence, error) {
 	s.mu.Lock()
@@ -162,17 +324,98 @@ func (s *seqStore) GetBlockHeaderByHash(hash []byte) (*types.Header, error) {
 	fmt.Sscanf(string(hash), "hash-%d", &seq)
 	return &types.Header{Height: seq, Hash: hash, BlockTime: 1600000000 + seq}, nil
 }
+
+var bigPayload = bytes.Repeat([]byte{0x5a}, 2*1024*1024)
+
+func (s *seqStore) detail(seq int64) *types.BlockDetail {
+	s.mu.Lock()
+	defer s.mu.Unlock()
+	if d, ok := s.cache[seq]; ok {
+		return d
+	}
+	b := &types.BlockDetail{Block: &types.Block{Height: seq, BlockTime: 1600000000 + seq, ParentHash: hashOf(seq - 1)}}
+	if s.sc.typ == tyReceipt || s.sc.typ == tyResult {
+		add := func(execer string, payload []byte) {
+			b.Block.Txs = append(b.Block.Txs, &types.Transaction{Execer: []byte(execer), Payload: payload, Nonce: seq, To: "1KSBd17H7ZK8iT37aJztFB22XGwsPTdwE4"})
+			b.Receipts = append(b.Receipts, &types.ReceiptData{Ty: types.ExecOk})
+		}
+		if mix(s.sc.seed^7, seq)%3 == 0 {
+			add("token", []byte("other"))
+		}
+		if n := s.sc.dataLen(seq); n > 0 {
+			add("coins", bigPayload[:n])
+			if mix(s.sc.seed^9, seq)%4 == 0 {
+				add("coins", []byte("second"))
+			}
+		}
+		if mix(s.sc.seed^8, seq)%3 == 0 {
+			add("ticket", []byte("more"))
+		}
+	}
+	if s.cache == nil {
+		s.cache = map[int64]*types.BlockDetail{}
+	}
+	s.cache[seq] = b
+	return b
+}
+
 func (s *seqStore) LoadBlockBySequence(seq int64) (*types.BlockDetail, int, error) {
 	if _, err := s.GetBlockSequence(seq); err != nil {
 		return nil, 0, err
 	}
-	b := &types.BlockDetail{Block: &types.Block{Height: seq, BlockTime: 1600000000 + seq}}
+	if s.sc.filter {
+		s.sc.gate.Lock() // a new task reads only after its start was logged
+		s.sc.gate.Unlock()
+		s.sc.read(seq)
+	}
+	b := s.detail(seq)
 	size := b.Size()
-	if s.bigMod > 0 && seq%s.bigMod < 5 {
+	if s.sc.typ == tyBlock && s.bigMod > 0 && seq%s.bigMod < 5 {
 		size = 400 * 1024 // a run of large blocks: the 1 MB payload cap cuts the batch
 	}
 	return b, size, nil
 }
+
+// the task loop reads block seq (filter subscriptions): the first read after LoadBlockLastSequence starts a
+// new pass; what the previous pass did without posting becomes visible here.
+func (s *scenario) read(seq int64) {
+	s.mu.Lock()
+	defer s.mu.Unlock()
+	if !s.marker {
+		return
+	}
+	s.marker = false
+	prev := s.cur
+	if prev != nil {
+		switch {
+		case !prev.posted && seq > prev.start:
+			for d := prev.start; d < seq; d++ {
+				if s.dataLen(d) > 0 {
+					s.pred("C32|getPushData|matching-block-skipped-without-post",
+						fmt.Sprintf("%s: the task went over %d..%d without posting but sequence %d holds matching data (%d payload bytes); log=%s",
+							s.name, prev.start, seq-1, d, s.dataLen(d), s.dumpLocked()))
+				}
+			}
+			s.logLocked(event{kind: "skip", a: prev.start, b: seq - 1})
+		case !prev.posted && seq == prev.start:
+			s.stalls++
+			if s.stalls <= 3 {
+				s.logLocked(event{kind: "stalled"})
+			}
+		case prev.posted && prev.acked && seq > prev.start:
+			// the record was not written (store failure): the in-memory cursor shows the end of the range
+			e := &s.events[prev.postIdx]
+			if seq-1 > e.b {
+				s.checkCovered(prev, seq-1)
+				e.b = seq - 1
+			} else if seq-1 < e.b {
+				s.pred("C32|runTask|cursor-behind-record", fmt.Sprintf("%s: next pass starts at %d after %s", s.name, seq, e.line()))
+			}
+		}
+	}
+	s.cur = &call{start: seq}
+}
+
 func (s *seqStore) LastHeader() *types.Header {
 	s.mu.Lock()
 	defer s.mu.Unlock()
@@ -192,43 +435,101 @@ func (s *scenario) handler(w http.ResponseWriter, req *http.Request) {
 	body, _ := io.ReadAll(req.Body)
 	zr, err := gzip.NewReader(bytes.NewReader(body))
 	var a, b int64 = -1, -1
+	var nums []int64
 	if err == nil {
 		raw, _ := io.ReadAll(zr)
-		var nums []int64
-		if s.blocks {
+		switch s.typ {
+		case tyBlock:
 			var bs types.BlockSeqs
 			if types.Decode(raw, &bs) == nil {
 				for _, x := range bs.Seqs {
 					nums = append(nums, x.Num)
 				}
 			}
-		} else {
+		case tyHeader:
 			var hs types.HeaderSeqs
 			if types.Decode(raw, &hs) == nil {
 				for _, x := range hs.Seqs {
 					nums = append(nums, x.Num)
 				}
 			}
-		}
-		if len(nums) > 0 {
-			a, b = nums[0], nums[len(nums)-1]
-			for i, x := range nums {
-				if x != a+int64(i) {
-					// the payload itself skips a sequence: report the range actually covered as broken
-					s.mu.Lock()
-					s.innerGap = true
-					s.mu.Unlock()
+		case tyResult:
+			var rs types.TxResultSeqs
+			if types.Decode(raw, &rs) == nil {
+				for _, x := range rs.Items {
+					nums = append(nums, x.SeqNum)
+					if d := s.seqs.detail(x.SeqNum); len(x.Items) != len(d.Block.Txs) {
+						s.mu.Lock()
+						s.pred("C32|getTxResults|wrong-content", fmt.Sprintf("%s: seq %d lists %d results for %d txs", s.name, x.SeqNum, len(x.Items), len(d.Block.Txs)))
+						s.mu.Unlock()
+					}
+				}
+			}
+		case tyReceipt:
+			var rs types.TxReceipts4Subscribe
+			if types.Decode(raw, &rs) == nil {
+				for _, x := range rs.TxReceipts {
+					nums = append(nums, x.SeqNum)
+					want := 0
+					for _, tx := range s.seqs.detail(x.SeqNum).Block.Txs {
+						if string(tx.Execer) == "coins" {
+							want++
+						}
+					}
+					bad := len(x.Tx) != want || len(x.ReceiptData) != want || want == 0
+					for _, tx := range x.Tx {
+						bad = bad || string(tx.Execer) != "coins"
+					}
+					if bad {
+						s.mu.Lock()
+						s.pred("C32|getTxReceipts|wrong-content", fmt.Sprintf("%s: seq %d carries %d txs / %d receipts, %d matching in the block", s.name, x.SeqNum, len(x.Tx), len(x.ReceiptData), want))
+						s.mu.Unlock()
+					}
 				}
 			}
 		}
+		if len(nums) > 0 {
+			a, b = nums[0], nums[len(nums)-1]
+		}
 	}
 	s.mu.Lock()
+	if !s.filter {
+		for i, x := range nums {
+			if x != a+int64(i) {
+				// the payload itself skips a sequence: report the range actually covered as broken
+				s.innerGap = true
+			}
+		}
+	} else {
+		for i := 1; i < len(nums); i++ {
+			if nums[i] <= nums[i-1] {
+				s.pred("C32|getPushData|payload-not-increasing", fmt.Sprintf("%s: payload lists %v", s.name, nums))
+			}
+		}
+		if s.cur != nil {
+			// a filter post covers the range from the start of this pass; matching sequences between the
+			// start and the last one listed must all be listed
+			if a >= 1 && a < s.cur.start {
+				s.pred("C32|getPushData|payload-before-range", fmt.Sprintf("%s: payload lists %v, pass started at %d", s.name, nums, s.cur.start))
+			}
+			if a >= 1 {
+				a = s.cur.start
+			}
+		}
+	}
 	ok := s.r.Intn(10) < s.okNum
 	mode := s.mode
 	if !ok && mode == 3 {
 		mode = s.r.Intn(3)
 	}
 	s.events = append(s.events, event{kind: "post", a: a, b: b, ok: ok})
+	if s.filter && s.cur != nil {
+		s.cur.posted, s.cur.acked, s.cur.postIdx, s.cur.nums = true, ok, len(s.events)-1, nums
+		if !ok {
+			// (a refused payload is checked like an acknowledged one, up to its last listed sequence)
+			s.checkCovered(s.cur, b)
+		}
+	}
 	s.mu.Unlock()
 	if ok {
 		if s.r.Bool() {
@@ -276,93 +577,344 @@ func (s *scenario) closePush(p *blockchain.Push) bool {
 
 var cfg *types.Chain33Config
 
+type world struct {
+	s         *scenario
+	srv       *httptest.Server
+	q         queue.Queue
+	push      *blockchain.Push
+	sub       *types.PushSubscribeReq
+	failSleep int32
+}
+
+func newWorld(s *scenario, latest int64, resume int64, failSleep int32) *world {
+	s.rec, s.last = blockchain.VerifPushKeys(s.name)
+	s.store = &memStore{m: map[string][]byte{}, sc: s, crashed: make(chan struct{}, 1)}
+	if s.seqs == nil {
+		s.seqs = &seqStore{}
+	}
+	s.seqs.sc, s.seqs.latest = s, latest
+	s.filter = s.typ == tyReceipt
+	w := &world{s: s, failSleep: failSleep}
+	w.srv = httptest.NewServer(http.HandlerFunc(s.handler))
+	w.q = queue.New("verif-push")
+	w.q.SetConfig(cfg)
+	w.push = blockchain.VerifNewPush(s.store, s.seqs, w.q.Client(), failSleep)
+	w.sub = &types.PushSubscribeReq{Name: s.name, URL: w.srv.URL, Encode: "proto", Type: int32(s.typ)}
+	if s.typ == tyReceipt {
+		w.sub.Contract = map[string]bool{"coins": true}
+	}
+	if resume > 0 {
+		w.sub.LastSequence = resume
+		w.sub.LastHeight = resume
+		w.sub.LastBlockHash = fmt.Sprintf("%x", hashOf(resume))
+	}
+	return w
+}
+
+func (w *world) close() {
+	w.srv.Close()
+	w.q.Close()
+}
+
+func (w *world) start() {
+	s := w.s
+	s.gate.Lock()
+	exists, _ := w.push.VerifTaskRunning(s.name)
+	err := w.push.VerifAddSubscriber(w.sub)
+	if err != nil {
+		s.notes = append(s.notes, "addSubscriber: "+err.Error())
+	} else if !exists {
+		s.log(event{kind: "started"})
+	}
+	s.gate.Unlock()
+}
+
+func (w *world) blocks(n int64) {
+	s := w.s
+	s.seqs.mu.Lock()
+	s.seqs.latest += n
+	l := s.seqs.latest
+	s.seqs.mu.Unlock()
+	w.push.UpdateSeq(l)
+}
+
+// a new Push over the same stores (Push.init starts a task for a subscription persisted as active)
+func (w *world) reboot() {
+	s := w.s
+	s.gate.Lock()
+	active := false
+	if v, err := s.store.GetKey(s.rec); err == nil {
+		var ps types.PushWithStatus
+		if types.Decode(v, &ps) == nil && ps.Status == 1 {
+			active = true
+		}
+	}
+	w.push = blockchain.VerifNewPush(s.store, s.seqs, w.q.Client(), w.failSleep)
+	if active {
+		s.log(event{kind: "started"})
+	}
+	s.gate.Unlock()
+}
+
+func (w *world) restart() bool {
+	if !w.s.closePush(w.push) {
+		return false
+	}
+	w.reboot()
+	return true
+}
+
+// crash: the next write of the last-pushed key never returns; when that happened within the wait the old
+// Push is abandoned (its task is frozen between acknowledgement and record) and the node is started again.
+func (w *world) crash(wait time.Duration, trigger func()) bool {
+	st := w.s.store
+	st.mu.Lock()
+	st.crashArmed = true
+	st.mu.Unlock()
+	if trigger != nil {
+		trigger()
+	}
+	fired := false
+	select {
+	case <-st.crashed:
+		fired = true
+	case <-time.After(wait):
+		st.mu.Lock()
+		if st.crashArmed {
+			st.crashArmed = false
+			st.mu.Unlock()
+		} else {
+			st.mu.Unlock()
+			<-st.crashed
+			fired = true
+		}
+	}
+	if fired {
+		w.reboot()
+	}
+	return fired
+}
+
 func runScenario(seed uint64, idx int) *scenario {
 	r := gen.New(seed)
-	s := &scenario{name: fmt.Sprintf("sub-%d", idx), r: gen.New(seed ^ 0x5555), okNum: []int{10, 8, 5, 3, 0}[r.Intn(5)], mode: r.Intn(4)}
-	s.rec, s.last = blockchain.VerifPushKeys(s.name)
-	s.store = &memStore{m: map[string][]byte{}, sc: s}
-	s.seqs = &seqStore{latest: int64(5 + r.Intn(40))}
-	s.blocks = r.Bool()
-	if s.blocks && r.Chance(2, 3) {
+	s := &scenario{name: fmt.Sprintf("sub-%d", idx), r: gen.New(seed ^ 0x5555), okNum: []int{10, 8, 5, 3, 0}[r.Intn(5)], mode: r.Intn(4), seed: seed}
+	s.seqs = &seqStore{}
+	s.typ = []int{tyBlock, tyHeader, tyReceipt, tyReceipt, tyResult}[r.Intn(5)]
+	s.dens = []int{0, 1, 3, 8, 16}[r.Intn(5)]
+	if (s.typ == tyBlock || s.typ == tyReceipt) && r.Chance(2, 3) {
 		s.seqs.bigMod = int64(7 + r.Intn(10))
 	}
-	srv := httptest.NewServer(http.HandlerFunc(s.handler))
-	defer srv.Close()
-	q := queue.New("verif-push")
-	q.SetConfig(cfg)
-	defer q.Close()
-
-	failSleep := int32(1 + r.Intn(2))
-	push := blockchain.VerifNewPush(s.store, s.seqs, q.Client(), failSleep)
-	sub := &types.PushSubscribeReq{Name: s.name, URL: srv.URL, Encode: "proto", Type: 1} // PushBlockHeader
-	if s.blocks {
-		sub.Type = 0 // PushBlock
-	}
+	s.lossy = r.Chance(1, 3)
+	latest := int64(5 + r.Intn(40))
 	resume := int64(0)
-	if r.Bool() {
-		resume = 1 + int64(r.Intn(int(s.seqs.latest)))
-		sub.LastSequence = resume
-		sub.LastHeight = resume
-		sub.LastBlockHash = fmt.Sprintf("%x", hashOf(resume))
+	if r.Chance(2, 3) {
+		resume = 1 + int64(r.Intn(int(latest)))
 	}
-	start := func(p *blockchain.Push, first bool) {
-		s.gate.Lock()
-		exists, _ := p.VerifTaskRunning(s.name)
-		err := p.VerifAddSubscriber(sub)
-		if err != nil {
-			s.notes = append(s.notes, "addSubscriber: "+err.Error())
-		} else if !exists {
-			s.log(event{kind: "started"})
-		}
-		s.gate.Unlock()
-	}
-	start(push, true)
+	w := newWorld(s, latest, resume, int32(1+r.Intn(2)))
+	defer w.close()
+	w.start()
 	if r.Chance(1, 3) {
 		// the subscriber repeats its registration request at once (client retry)
-		start(push, false)
+		w.start()
+	}
+	if s.lossy {
+		s.store.mu.Lock()
+		s.store.failNum = []int{0, 2, 5}[r.Intn(3)]
+		s.store.mu.Unlock()
 	}
 	steps := 6 + r.Intn(6)
 	for k := 0; k < steps; k++ {
-		switch r.Pick(6, 2, 2, 1) {
+		crashW := 0
+		if s.lossy {
+			crashW = 2
+		}
+		switch r.Pick(6, 2, 2, 1, crashW) {
 		case 0: // new blocks
 			n := int64(1 + r.Intn(25))
-			s.seqs.mu.Lock()
-			s.seqs.latest += n
-			l := s.seqs.latest
-			s.seqs.mu.Unlock()
-			push.UpdateSeq(l)
+			if s.typ == tyReceipt && r.Chance(1, 4) {
+				n = int64(60 + r.Intn(200))
+			}
+			w.blocks(n)
 		case 1: // the subscriber registers again (possibly after a deactivation)
-			start(push, false)
+			w.start()
 		case 2: // node restart over the same stores
-			if !s.closePush(push) {
+			if !w.restart() {
 				return s
 			}
-			s.gate.Lock()
-			active := false
-			if v, err := s.store.GetKey(s.rec); err == nil {
-				var ps types.PushWithStatus
-				if types.Decode(v, &ps) == nil && ps.Status == 1 {
-					active = true
-				}
-			}
-			push = blockchain.VerifNewPush(s.store, s.seqs, q.Client(), failSleep)
-			if active {
-				s.log(event{kind: "started"})
-			}
-			s.gate.Unlock()
 		case 3: // the subscriber changes its mind about answering
 			s.mu.Lock()
 			s.okNum = []int{10, 8, 5, 3, 0}[r.Intn(5)]
 			s.mu.Unlock()
+		case 4: // node crash between an acknowledgement and its record (if one happens soon)
+			n := int64(1 + r.Intn(12))
+			w.crash(1200*time.Millisecond, func() { w.blocks(n) })
 		}
 		time.Sleep(time.Duration(100+r.Intn(1200)) * time.Millisecond)
 	}
 	time.Sleep(1500 * time.Millisecond)
-	s.closePush(push)
+	s.closePush(w.push)
 	return s
 }
 
-// the property evaluated directly on the log
+// ------------------------------------------------------------------ scripted histories (witnesses)
+
+func waitFor(d time.Duration, cond func() bool) bool {
+	end := time.Now().Add(d)
+	for time.Now().Before(end) {
+		if cond() {
+			return true
+		}
+		time.Sleep(10 * time.Millisecond)
+	}
+	return cond()
+}
+
+func (s *scenario) count(kind string) int {
+	s.mu.Lock()
+	defer s.mu.Unlock()
+	n := 0
+	for _, e := range s.events {
+		if e.kind == kind {
+			n++
+		}
+	}
+	return n
+}
+
+// size of the per-block receipt message getTxReceipts builds for seq (same fields, same values)
+func perBlkSize(s *scenario, seq int64) int {
+	d := s.seqs.detail(seq)
+	m := &types.TxReceipts4SubscribePerBlk{}
+	for i, tx := range d.Block.Txs {
+		if string(tx.Execer) == "coins" {
+			m.Tx = append(m.Tx, tx)
+			m.ReceiptData = append(m.ReceiptData, d.Receipts[i])
+		}
+	}
+	if len(m.Tx) > 0 {
+		m.Height = d.Block.Height
+		m.BlockHash = d.Block.Hash(cfg)
+		m.ParentHash = d.Block.ParentHash
+		m.PreviousHash = []byte{}
+		m.AddDelType = 1
+		m.SeqNum = seq
+	}
+	return types.Size(m)
+}
+
+func scripted(kind string) *scenario {
+	s := &scenario{name: "w-" + kind, r: gen.New(1), okNum: 10, seed: 12345, typ: tyReceipt, script: map[int64]int{}}
+	s.seqs = &seqStore{}
+	switch kind {
+	case "empty-restart-data":
+		// task 1: ranges without matching data move the cursor in memory only; after a restart the task
+		// goes over them again from the record; the next matching block is delivered once
+		w := newWorld(s, 5, 5, 1)
+		defer w.close()
+		w.start()
+		w.blocks(12)
+		time.Sleep(300 * time.Millisecond)
+		w.blocks(2) // (a pass without a post shows when the next pass starts)
+		waitFor(3*time.Second, func() bool { return s.count("skip") >= 1 })
+		time.Sleep(300 * time.Millisecond)
+		w.restart()
+		s.script[20] = 40
+		w.blocks(1)
+		waitFor(3*time.Second, func() bool { return s.count("persisted") >= 2 })
+		w.blocks(3)
+		time.Sleep(300 * time.Millisecond)
+		w.blocks(1)
+		waitFor(3*time.Second, func() bool { return s.count("skip") >= 2 })
+		s.closePush(w.push)
+	case "exact-fit":
+		// a matching block whose message makes the batch exactly pushMaxSize is neither appended nor does
+		// it end the batch ("< maxSize" / "> maxSize"): it is counted as delivered
+		w := newWorld(s, 5, 5, 1)
+		defer w.close()
+		s.script[6] = 40
+		s.script[8] = 40
+		s.seqs.sc, s.filter = s, true
+		found := false
+		for pad := 0; pad < 8 && !found; pad++ {
+			s.script[6] = 40 + pad
+			s.seqs.cache = nil
+			target := maxSize - perBlkSize(s, 6)
+			lo, hi := 1, len(bigPayload)
+			for lo <= hi {
+				mid := (lo + hi) / 2
+				s.script[7] = mid
+				s.seqs.mu.Lock()
+				delete(s.seqs.cache, 7)
+				s.seqs.mu.Unlock()
+				sz := perBlkSize(s, 7)
+				if sz == target {
+					found = true
+					break
+				} else if sz < target {
+					lo = mid + 1
+				} else {
+					hi = mid - 1
+				}
+			}
+		}
+		if !found {
+			s.notes = append(s.notes, "exact-fit: no payload length gives the exact size")
+			return s
+		}
+		w.start()
+		w.blocks(3)
+		waitFor(5*time.Second, func() bool { return s.count("persisted") >= 2 })
+		s.closePush(w.push)
+	case "oversize":
+		// a matching block larger than pushMaxSize at the start of a range: nothing is posted, the cursor
+		// does not move, the loop notifies itself again — the subscriber never gets this or any later block
+		w := newWorld(s, 5, 5, 1)
+		defer w.close()
+		s.script[6] = maxSize + 1000
+		s.script[7] = 40
+		w.start()
+		w.blocks(2)
+		waitFor(3*time.Second, func() bool { s.mu.Lock(); defer s.mu.Unlock(); return s.stalls >= 200 })
+		s.closePush(w.push)
+		s.mu.Lock()
+		if s.stalls >= 200 {
+			posts := 0
+			for _, e := range s.events {
+				if e.kind == "post" {
+					posts++
+				}
+			}
+			s.pred("C32|getTxReceipts|oversize-block-stalls-subscriber",
+				fmt.Sprintf("%s: block 6 carries %d bytes of matching data (> pushMaxSize): the task read it %d times in a row without posting or moving on, %d posts, block 7 never delivered; log=%s",
+					s.name, s.script[6], s.stalls, posts, s.dumpLocked()))
+		}
+		s.mu.Unlock()
+	case "store-fail", "crash":
+		// task 2: the acknowledgement of 6..9 is not recorded (write error ignored / crash before the
+		// write); after the restart 6..9 is delivered again.  Same history as the Lean witness.
+		s.typ, s.lossy = tyHeader, true
+		w := newWorld(s, 5, 5, 1)
+		defer w.close()
+		w.start()
+		if kind == "store-fail" {
+			s.store.mu.Lock()
+			s.store.failOnce = true
+			s.store.mu.Unlock()
+			w.blocks(4)
+			waitFor(3*time.Second, func() bool { return s.count("post") >= 1 })
+			time.Sleep(200 * time.Millisecond)
+			w.restart()
+		} else {
+			w.crash(3*time.Second, func() { w.blocks(4) })
+		}
+		waitFor(3*time.Second, func() bool { return s.count("persisted") >= 2 })
+		s.closePush(w.push)
+	}
+	return s
+}
+
+// ------------------------------------------------------------------ the property evaluated directly on the log
+
 func predicate(s *scenario) {
 	if s.innerGap {
 		out.Pred("C32|getPushData|payload-skips-a-sequence", fmt.Sprintf("%s: a posted payload does not hold consecutive sequences; log=%s", s.name, s.dump()))
@@ -370,26 +922,47 @@ func predicate(s *scenario) {
 	if s.closeBlocked {
 		out.Pred("C32|Push.Close|blocked", fmt.Sprintf("%s: Push.Close did not return within 20s; log=%s", s.name, s.dump()))
 	}
-	var lastAck int64 = -1   // end of the last acknowledged range
-	var resume int64 = -1    // value of the last persisted record
+	for _, p := range s.preds {
+		out.Pred(p[0], p[1])
+	}
+	var lastAck int64 = -1 // end of the last acknowledged range
+	var maxAck int64 = -1  // largest sequence ever acknowledged
+	var resume int64 = -1  // value of the last persisted record
+	var cursor int64 = -1  // where the running task stands: end of the last acknowledged / skipped range
 	pendingAck := int64(-1)
 	fails := 0
 	for i, e := range s.events {
 		switch e.kind {
-		case "post":
+		case "post", "skip":
 			if e.a < 1 || e.b < e.a {
 				out.Pred("C32|PostData|malformed-range", fmt.Sprintf("%s event %d: %s", s.name, i, e.line()))
 			}
-			if resume >= 1 && e.a != resume+1 {
+			if cursor >= 1 && e.a != cursor+1 {
 				kind := "gap"
-				if e.a <= resume {
-					kind = "repeat-of-acknowledged"
+				if e.a <= cursor {
+					kind = "repeat"
 				}
-				out.Pred("C32|runTask|post-not-contiguous-"+kind, fmt.Sprintf("%s event %d: %s but last recorded %d; log=%s", s.name, i, e.line(), resume, s.dump()))
+				out.Pred("C32|runTask|post-not-contiguous-"+kind, fmt.Sprintf("%s event %d: %s but the task stood at %d (last recorded %d); log=%s", s.name, i, e.line(), cursor, resume, s.dump()))
 			}
-			if e.ok {
+			if e.kind == "post" && e.a <= maxAck {
+				// an acknowledged sequence is delivered again
+				if s.lossy {
+					s.redelivered++ // its record was lost (injected store failure / crash): at-least-once
+				} else {
+					out.Pred("C32|runTask|post-not-contiguous-repeat-of-acknowledged", fmt.Sprintf("%s event %d: %s but %d was acknowledged before; log=%s", s.name, i, e.line(), maxAck, s.dump()))
+				}
+			}
+			pendingAck = -1
+			if e.kind == "skip" {
+				cursor = e.b
+				fails = 0
+			} else if e.ok {
 				lastAck = e.b
+				if e.b > maxAck {
+					maxAck = e.b
+				}
 				pendingAck = e.b
+				cursor = e.b
 				fails = 0
 			} else {
 				fails++
@@ -406,8 +979,17 @@ func predicate(s *scenario) {
 				out.Pred("C32|runTask|deactivated-early", fmt.Sprintf("%s after %d failures", s.name, fails))
 			}
 			fails = 0
+			pendingAck = -1
 		case "started":
 			fails = 0
+			cursor = resume
+			if pendingAck != -1 && !s.lossy {
+				out.Pred("C32|setLastPushSeq|ack-not-recorded", fmt.Sprintf("%s event %d: task started while the acknowledgement of %d was not recorded; log=%s", s.name, i, pendingAck, s.dump()))
+			}
+			pendingAck = -1
+		case "stalled":
+			fails = 0
+			pendingAck = -1
 		}
 		if e.kind == "post" && fails > 3 {
 			out.Pred("C32|runTask|no-deactivation-after-3-failures", fmt.Sprintf("%s: %d consecutive failures; log=%s", s.name, fails, s.dump()))
@@ -415,7 +997,7 @@ func predicate(s *scenario) {
 	}
 }
 
-func (s *scenario) dump() string {
+func (s *scenario) dumpLocked() string {
 	var l []string
 	for _, e := range s.events {
 		l = append(l, e.line())
@@ -423,10 +1005,85 @@ func (s *scenario) dump() string {
 	return strings.Join(l, "; ")
 }
 
+func (s *scenario) dump() string {
+	s.mu.Lock()
+	defer s.mu.Unlock()
+	return s.dumpLocked()
+}
+
+func report(s *scenario, sample bool) {
+	maxSeq := 10
+	if s.typ == tyReceipt {
+		maxSeq = 100
+	}
+	strict := 1
+	if s.lossy {
+		strict = 0
+	}
+	out.Op(fmt.Sprintf("cfg %d %d", maxSeq, strict), "ok")
+	acks, fails := 0, 0
+	for _, e := range s.events {
+		out.Op(e.line(), "ok")
+		switch e.kind {
+		case "post":
+			if e.ok {
+				acks++
+			} else {
+				fails++
+			}
+		case "deactivated":
+			out.Stat("deactivations", 1)
+		case "started":
+			out.Stat("task_starts", 1)
+		case "skip":
+			out.Stat("ranges_without_matching_data", 1)
+		case "stalled":
+			out.Stat("stalled_passes_logged", 1)
+		}
+	}
+	predicate(s)
+	out.Stat("scenarios", 1)
+	out.Stat("scenarios_type_"+[]string{"block", "header", "txreceipt", "txresult"}[s.typ], 1)
+	if s.seqs.bigMod > 0 {
+		out.Stat("scenarios_with_size_cut", 1)
+	}
+	if s.lossy {
+		out.Stat("scenarios_with_store_faults", 1)
+	}
+	out.Stat("acknowledged_posts", int64(acks))
+	out.Stat("failed_posts", int64(fails))
+	out.Stat("records_lost_store_error", int64(s.lostRecords))
+	out.Stat("crashes_between_ack_and_record", int64(s.crashes))
+	out.Stat("redeliveries_after_lost_record", int64(s.redelivered))
+	for _, nt := range s.notes {
+		out.Note(s.name + ": " + nt)
+	}
+	if sample {
+		out.Sample(s.name + ": " + s.dump())
+	}
+}
+
 func main() {
 	defer out.Flush()
 	cfg = types.NewChain33Config(types.GetDefaultCfgstring())
 	r := gen.New(gen.Seed())
+
+	// scripted witnesses first (deterministic histories)
+	kinds := []string{"empty-restart-data", "exact-fit", "oversize", "store-fail", "crash"}
+	wres := make([]*scenario, len(kinds))
+	var wg sync.WaitGroup
+	for i, k := range kinds {
+		wg.Add(1)
+		go func(i int, k string) {
+			defer wg.Done()
+			wres[i] = scripted(k)
+		}(i, k)
+	}
+	wg.Wait()
+	for _, s := range wres {
+		report(s, true)
+	}
+
 	n := gen.Scale(48, 600)
 	par := 48
 	for base := 0; base < n; base += par {
@@ -445,40 +1102,7 @@ func main() {
 			if s == nil {
 				continue
 			}
-			out.Op("cfg 10", "ok")
-			acks, fails := 0, 0
-			for _, e := range s.events {
-				out.Op(e.line(), "ok")
-				if e.kind == "post" {
-					if e.ok {
-						acks++
-					} else {
-						fails++
-					}
-				}
-				if e.kind == "deactivated" {
-					out.Stat("deactivations", 1)
-				}
-				if e.kind == "started" {
-					out.Stat("task_starts", 1)
-				}
-			}
-			predicate(s)
-			out.Stat("scenarios", 1)
-			if s.blocks {
-				out.Stat("scenarios_pushblock", 1)
-			}
-			if s.seqs.bigMod > 0 {
-				out.Stat("scenarios_with_size_cut", 1)
-			}
-			out.Stat("acknowledged_posts", int64(acks))
-			out.Stat("failed_posts", int64(fails))
-			for _, nt := range s.notes {
-				out.Note(s.name + ": " + nt)
-			}
-			if base == 0 && s.name == "sub-0" {
-				out.Sample(s.dump())
-			}
+			report(s, base == 0 && s.name == "sub-0")
 		}
 	}
 }
